@@ -378,3 +378,15 @@ Proof.
   destruct mx_hyps as (A & _ & _ & _ & B & C & _).
   split; [vm_compute; lia|]. split; [exact B|]. split; [exact C|]. split; [exact A|]. split; vm_compute; reflexivity.
 Qed.
+
+(** C12_parse_total_partial_fuel_insideSelf / _scopeOf: the hypotheses hold for the pool with a Method; from the name path (depth 2) the
+    climb returns false, the Method has no ScopeBlock child *)
+Example C12_fuel_inner_nonvacuous :
+  TI mx_state mx_ghost /\ glive mx_ghost 2 /\
+  match (mlet pf <~ poolFuel ;; insideSelf_go pf (Some 2) 3) mx_state with Ok (b, _) => b = false | _ => False end /\
+  match scopeOf 1 mx_state with Ok (r, _) => r = None | _ => False end.
+Proof.
+  destruct mx_hyps as (A & B & C & _).
+  split; [constructor; assumption|]. split; [split; [vm_compute; reflexivity|vm_compute; intuition discriminate]|].
+  split; vm_compute; reflexivity.
+Qed.
